@@ -630,13 +630,71 @@ def translate(repo):
              "deallocate: munmap(it->page_ptr, …); allocation_list.erase(it);")
     out.append("/-- deallocate unmaps this many bytes at it->page_ptr -/")
     D.add("dbgUnmapLen", ("pages", "page"), m.group(1), "it->pages * page_size", env_it, grid=grid_p, wrap=True)
+    # ---- the compile-time configuration DEBUG_ALLOCATOR_KEEP: what the #if branch does with the entry found
+    if not mk:
+        raise TranslateError("deallocate: no `#if DEBUG_ALLOCATOR_KEEP … #else … #endif` block around the release of the mapping")
+    keepb = mk.group(1)
+    known = keepb
+    out.append("/-- DEBUG_ALLOCATOR_KEEP: deallocate makes the whole mapping of the released block inaccessible -/")
+    mp = re.search(r"memprotect\s*\(\s*it->page_ptr\s*,([^;]*),\s*PROT_NONE\s*\)\s*;", keepb)
+    if mp:
+        D.add("dbgKeepProtLen", ("pages", "page"), mp.group(1), "(it->pages) * page_size", env_it, grid=grid_p, wrap=True)
+        known = known.replace(mp.group(0), "")
+    out.append("def dbgKeepProtects : Bool := %s" % ("true" if mp else "false"))
+    if re.search(r"memprotect\s*\([^;]*PROT_(READ|WRITE)", keepb):
+        raise TranslateError("DEBUG_ALLOCATOR_KEEP branch of deallocate makes released memory accessible")
+    mu = re.search(r"munmap\s*\(\s*it->page_ptr\s*,([^;]*)\)\s*;", keepb)
+    out.append("/-- DEBUG_ALLOCATOR_KEEP: does deallocate give the mapping back / erase the entry? -/")
+    out.append("def dbgKeepFreeUnmaps : Bool := %s" % ("true" if mu else "false"))
+    if mu:
+        if nows(mu.group(1)) not in ("it->pages*page_size", "(it->pages)*page_size"):
+            raise TranslateError("DEBUG_ALLOCATOR_KEEP branch: munmap length not understood: %r" % mu.group(1))
+        known = known.replace(mu.group(0), "")
+    me = re.search(r"allocation_list\.erase\s*\(\s*it\s*\)\s*;", keepb)
+    out.append("def dbgKeepFreeErases : Bool := %s" % ("true" if me else "false"))
+    if me:
+        known = known.replace(me.group(0), "")
+    if nows(known):
+        raise TranslateError("DEBUG_ALLOCATOR_KEEP branch of deallocate: statements not understood: %r" % nows(known))
+    # the not_free flag: set by allocate, asserted and cleared by deallocate (before the configuration-dependent part)
+    if not re.search(r"ai\.not_free\s*=\s*true\s*;", body):
+        raise TranslateError("allocate no longer records the block as in use (ai.not_free = true)")
+    head = found[:mk.start()]
+    chk_nf = re.search(r"ALLOCATION_ASSERT\s*\(\s*(true\s*==\s*it->not_free|it->not_free\s*==\s*true|it->not_free)\s*\)\s*;", head)
+    if not chk_nf and re.search(r"not_free", head.replace("it->not_free = false", "")):
+        raise TranslateError("deallocate: use of it->not_free not understood")
+    out.append("/-- deallocate asserts that the entry found is still in use (a double free aborts) -/")
+    out.append("def dbgChecksNotFree : Bool := %s" % ("true" if chk_nf else "false"))
+    if not re.search(r"it->not_free\s*=\s*false\s*;", found[:mk.start()] + found[mk.end():]):
+        raise TranslateError("deallocate no longer marks the entry as released (it->not_free = false)")
+    if not re.search(r"return\s*;", found[mk.end():]):
+        raise TranslateError("deallocate: no return after the entry found was released")
     # the destructor unmaps whatever is still recorded
     dtor = block_after(src, find(r"~AllocationManager\s*\(\s*\)\s*\{", src, "~AllocationManager"), "~AllocationManager")
-    m = find(r"munmap\s*\(\s*it->page_ptr\s*,([^;]*)\)\s*;", dtor, "~AllocationManager: munmap(it->page_ptr, …)")
-    if not re.search(r"for\s*\(\s*it\s*=\s*allocation_list\.begin\s*\(\s*\)\s*;\s*it\s*!=\s*allocation_list\.end\s*\(\s*\)\s*;", dtor):
+    # the walk over the whole list: iterator loop or range-based for, any name for the entry
+    m = find(r"munmap\s*\(\s*(\w+)\s*(->|\.)\s*page_ptr\s*,([^;]*)\)\s*;", dtor, "~AllocationManager: munmap(<entry>.page_ptr, …)")
+    var, acc = m.group(1), m.group(2)
+    loops = [r"for\s*\(\s*(?:[\w:]+\s+)?%s\s*=\s*allocation_list\.begin\s*\(\s*\)\s*;\s*%s\s*!=\s*allocation_list\.end\s*\(\s*\)\s*;\s*(?:\+\+\s*%s|%s\s*\+\+)\s*\)" % (var, var, var, var),
+             r"for\s*\(\s*(?:const\s+)?[\w:]+\s*&\s*%s\s*:\s*allocation_list\s*\)" % var]
+    lm = None
+    for rx in loops:
+        lm = lm or re.search(rx, dtor)
+    if not lm:
         raise TranslateError("~AllocationManager no longer walks the whole allocation list")
+    lbody = block_after(dtor, re.search(r"\{", dtor[lm.end():]) and re.compile(r"\{").search(dtor, lm.end()), "~AllocationManager loop body")
+    # the munmap call must be a direct statement of the loop body, not guarded by a condition
+    depth = 0
+    pos = lbody.find(m.group(0))
+    if pos < 0:
+        raise TranslateError("~AllocationManager: munmap is not inside the loop over the allocation list")
+    for ch in lbody[:pos]:
+        depth += ch == "{"
+        depth -= ch == "}"
+    if depth != 0 or re.search(r"(if|while|for)\s*\([^;{}]*\)\s*$", lbody[:pos]):
+        raise TranslateError("~AllocationManager: munmap of an entry is conditional")
     out.append("/-- ~AllocationManager unmaps this many bytes at it->page_ptr for every entry still recorded -/")
-    D.add("dbgDtorUnmapLen", ("pages", "page"), m.group(1), "it->pages * page_size", env_it, grid=grid_p, wrap=True)
+    env_dt = {"%s%spages" % (var, acc): ("pages", "pages"), "page_size": ("page", "page")}
+    D.add("dbgDtorUnmapLen", ("pages", "page"), m.group(3), "%s%spages * page_size" % (var, acc), env_dt, grid=grid_p, wrap=True)
     out.append("")
     out.append("end DV.C15.Gen")
     return [("DuneVerif/Gen/C15.lean", "\n".join(out) + "\n")]
